@@ -521,6 +521,7 @@ type recipe struct {
 	aux   map[string]string // extra files to place in the work dir: name -> content
 	quick bool
 	noInOnly   bool   // the command has no "stdin in, implicit stdout" form
+	expectFail bool   // the command fails on the sample both ways (e.g. no signatures present)
 	knownClass string // class to report when a stdin variant's document differs from the file variant's
 }
 
@@ -586,7 +587,7 @@ func recipes() []recipe {
 		{name: "pagemode-list", execs: []string{"ListPageMode"}, args: []string{"pagemode", "list", "IN"}, in: "MULTI.pdf", kind: "text"},
 		{name: "viewerpref-list", execs: []string{"ListViewerPreferences"}, args: []string{"viewerpref", "list", "IN"}, in: "MULTI.pdf", kind: "text"},
 		{name: "permissions-list", execs: []string{"ListPermissions"}, args: []string{"permissions", "list", "--upw", "u1", "IN"}, in: "ENC.pdf", kind: "text", quick: q},
-		{name: "signatures-validate", execs: []string{"validateSignatures"}, args: []string{"signatures", "validate", "IN"}, in: "MULTI.pdf", kind: "text"},
+		{name: "signatures-validate", execs: []string{"validateSignatures"}, args: []string{"signatures", "validate", "IN"}, in: "MULTI.pdf", kind: "text", expectFail: true},
 
 		// JSON on stdout
 		{name: "info-json", execs: []string{"handleInfoCommand"}, args: []string{"info", "--json", "IN"}, in: "go.pdf", kind: "json", quick: q},
@@ -971,7 +972,11 @@ func runRecipe(rec recipe, idx int, cfg string, thorough bool) []*outcome {
 		case "text":
 			fr := runBin(cfg, dir, nil, with(subst(rec.args, "in.pdf", "", "", ""))...)
 			sr := runBin(cfg, dir, sample, with(subst(rec.args, "-", "", "", ""))...)
-			o.cases = append(o.cases, [3]string{"exit", "true", fmt.Sprintf("%x", fr.exit)}, [3]string{"exit", "true", fmt.Sprintf("%x", sr.exit)})
+			want := "true"
+			if rec.expectFail {
+				want = "false"
+			}
+			o.cases = append(o.cases, [3]string{"exit", want, fmt.Sprintf("%x", fr.exit)}, [3]string{"exit", want, fmt.Sprintf("%x", sr.exit)})
 			if fr.exit != sr.exit {
 				o.fail("text-exit-status-differs:"+rec.name, fmt.Sprintf("file %d (%s) stdin %d (%s)", fr.exit, trunc(string(fr.stderr), 200), sr.exit, trunc(string(sr.stderr), 200)))
 				continue
